@@ -903,6 +903,10 @@ def run(ctx):
         except subprocess.TimeoutExpired:
             ctx.violation({'kind': 'stream-cli-timeout', 'case': {'name': 'cli-inner-signatures'}})
 
+    # end to end: the extracted scanner over the concrete framing decoder (StreamFrame.v), nothing observed
+    from props import c11_e2e
+    c11_e2e.run(ctx, damaged=False)
+
     cross_check(ctx, res_clean + [], ctx.n(12, 60))
 
     for need in ('body-contains-BUFR', 'sep:partial', 'mixed-editions', 'damaged', 'off-domain',
